@@ -155,6 +155,26 @@ fn main() {
                     if a != b { fail(fname, "same_history_same_summary_text", &ops, mode, stride, "two runs over the same history rendered different summaries".into()); }
                 }
             } }
+            // ---- overlapping jobs: two requests planned before either job ran (what two back-to-back POSTs do); the runners then execute
+            // one after the other, the second finding its cut points checkpointed already. Every spawned job is ended exactly once. ----
+            {
+                let st = fresh(mode); build(&st, &ops).unwrap();
+                let before = st.replay_events(T).unwrap();
+                let req = || CompactionAutoV1Request { stride_messages: Some(stride), max_new_checkpoints: Some(2), dry_run: Some(false), actor_id: "u".into(), origin: "o".into() };
+                if let (Ok(first), Ok(second)) = (st.compaction_auto_spawn_job_v1(T, req()), st.compaction_auto_spawn_job_v1(T, req())) {
+                    let mut jobs: Vec<String> = Vec::new();
+                    for r in [&first, &second] { if let Some(job_id) = r.job_id.as_ref() {
+                        jobs.push(job_id.clone());
+                        let _ = st.compaction_auto_run_spawned_job_v1(T, job_id, r.stride_messages, &r.cut_rule_id, &r.planned, ("u", "o"));
+                    } }
+                    let after = st.replay_events(T).unwrap();
+                    for job in &jobs {
+                        let spawned = after[before.len()..].iter().filter(|e| matches!(&e.kind, EventKind::ContinuityJobSpawned { job_id, .. } if job_id == job)).count();
+                        let ended = after[before.len()..].iter().filter(|e| matches!(&e.kind, EventKind::ContinuityJobEnded { job_id, .. } if job_id == job)).count();
+                        if spawned != 1 || ended != 1 { fail("ContinuityStore::compaction_auto_run_spawned_job_v1", "every_spawned_job_is_ended_exactly_once_also_when_another_job_checkpointed_its_cut_points_first", &ops, mode, stride, format!("job {job}: {spawned} job-spawned frame(s), {ended} job-ended frame(s)")); }
+                    }
+                }
+            }
             // ---- inflight: schedule with block_on_inflight skips while a compaction job is spawned and not ended (cache present only; best effort) ----
             if mode == 1 {
                 let st = fresh(mode); build(&st, &ops).unwrap();
